@@ -43,6 +43,34 @@ Theorem C06_stale_calcext_refuted :
 Proof. exact stale_calcext_value_pinned. Qed.
 Print Assumptions C06_stale_calcext_refuted.
 
+(* set_value_and_type with its value_type / currency arguments and Cell.set_value's formula: a number stored as float, percentage or
+   currency reads back as an equal number together with the type asked for; the currency name and the formula are written as given *)
+Theorem C06_typed_numbers : forall vt cur fo v e, is_num v = true -> in_domain v = true -> numeric_type vt = true ->
+  set_et_full (Some vt) cur fo v = Ok e ->
+  exists r, get_et_typed e = Ok (r, Some vt) /\ same_value v r = true /\ a_currency e = (if str_eqb vt t_currency then cur else None) /\
+            others e = match fo with Some f => [(n_formula, f)] | None => [] end.
+Proof. exact typed_number_roundtrip_lemma. Qed.
+Print Assumptions C06_typed_numbers.
+(* without a type argument, get_value(get_type=True) reports the ODF type of the Python type: boolean, float, date, string, time *)
+Theorem C06_type_reported : forall v, in_domain v = true ->
+  exists e r, model_set SetET v = Ok e /\ get_et_typed e = Ok (r, default_type v) /\ same_value v r = true.
+Proof. exact default_type_reported_lemma. Qed.
+Print Assumptions C06_type_reported.
+Theorem C06_args_default : forall v, set_et_full None None None v = model_set SetET v.
+Proof. exact set_et_full_default. Qed.
+Print Assumptions C06_args_default.
+(* Row.set_value / Table.set_value into repeated runs, on the list of logical cells: the addressed cell gets the value, every other
+   cell is what it was, the width grows only when the position is beyond the end (the refinement "run-length XML = this list" is C01's) *)
+Theorem C06_one_cell : forall i e l, nth i (grid_set i e l) empty_elem = e.
+Proof. exact grid_set_same. Qed.
+Print Assumptions C06_one_cell.
+Theorem C06_other_cells : forall i j e l, j <> i -> nth j (grid_set i e l) empty_elem = nth j l empty_elem.
+Proof. exact grid_set_other. Qed.
+Print Assumptions C06_other_cells.
+Theorem C06_width : forall i e l, length (grid_set i e l) = Nat.max (S i) (length l).
+Proof. exact grid_set_length. Qed.
+Print Assumptions C06_width.
+
 (* CPython's Decimal(str(d)) == d, on the model: every finite Decimal, scientific notation included *)
 Theorem C06_decimal_text_roundtrip : forall d : dec, dec_of_text (str_of_dec d) = Some d.
 Proof. exact dec_text_roundtrip_lemma. Qed.
@@ -50,7 +78,7 @@ Print Assumptions C06_decimal_text_roundtrip.
 
 (* the domain is not empty at its corners *)
 Example C06_example :
-  in_domain_for SetMeta (VDateTime (mkdt 9999 12 31 23 59 59 999999 (Some (-50400)%Z))) = true /\
+  in_domain_for SetMeta (VDateTime (mkdt 9999 12 31 23 59 59 999999 (Some (-50400000000)%Z))) = true /\
   in_domain_for SetET (VDec (mkdec true 110 (-2))) = true /\ in_domain_for SetCellValue (VFloat [49;101;43;51;48;48]%N) = true /\
   in_domain_for SetET (VInt (-1267650600228229401496703205376)%Z) = true /\ in_domain_for SetMeta (VStr [116;114;117;101]%N) = true.
 Proof. repeat split; reflexivity. Qed.
